@@ -351,6 +351,12 @@ def run_sim_class(chk, cls, scs, mons, variant=None, batch=250, tag=None):
             sc["interloper"] = True            # an unrelated simulation is built and run from inside the 2nd and 5th callback
         if "ext_inside" not in sc and sc["drv"][0] == "drive" and k % 2 == 1:
             sc["ext_inside"] = True            # requests "from outside" made from inside another node's callback instead
+        if "json_payloads" not in sc and "odd_payloads" not in sc and k % 9 in (4, 7):
+            sc["json_payloads"] = True         # message texts that are deeply nested JSON documents
+        if "builder_reused" not in sc and k % 7 == 6:
+            sc["builder_reused"] = True        # after build(), the builder prepares and builds another simulation; the first one runs
+        if "forked" not in sc and k % 11 == 5:
+            sc["forked"] = True                # the built simulator is deep-copied before it starts; the copy runs
         if "cb_returns" not in sc and k % 3 == 1:
             sc["cb_returns"] = True            # the protocol's callbacks return values (True, counts, ...) instead of None
         if "early_controller" not in sc and k % 7 == 3:
@@ -423,7 +429,7 @@ def run_sim_class(chk, cls, scs, mons, variant=None, batch=250, tag=None):
 def _brief(sc):
     d = {k: sc[k] for k in ("handlers", "nodes", "med", "mob", "asserts", "seed", "dur", "maxit", "drv", "script")}
     for k in ("reuse_commands", "fresh_controllers", "odd_names", "truthy_preds", "build_twice", "poll_done", "int_numbers", "enum_names", "raw_commands", "rerun", "late_config", "nodes_first", "interloper", "poll_inside", "positional_config", "two_controllers", "cross_flags", "worker_thread", "replaced_handlers", "long_payloads", "odd_payloads", "variant", "stream",
-              "ext_inside", "cb_returns", "early_controller", "late_classes", "slow_cb", "host_plugin", "tag_names", "quote_plugin",
+              "ext_inside", "forked", "builder_reused", "json_payloads", "cb_returns", "early_controller", "late_classes", "slow_cb", "host_plugin", "tag_names", "quote_plugin",
               "assert_names", "trace_limit", "fuel"):
         if k in sc:
             d[k] = sc[k]
@@ -567,11 +573,85 @@ def check_C01(chk, R, S):
         slow.append(sc)
     run_sim_class(chk, "sim-paced-slow-callback", slow, [M.mon_C01])
     _crowd_class(chk, R, [M.mon_C01])
+    el_exact_integer_class(chk, R, max(200, S["el_rand"] // 10))
     # the same scenarios in a child interpreter started with optimisations on (asserts stripped): same traces
     import subproc_matrix
     subproc_matrix.run(chk, gen_many(R, 8, {"p_assert": 0.0}), R, light=True, hashseeds=("1",), env_extra={"PYTHONOPTIMIZE": "1"},
                        what="PYTHONOPTIMIZE=1, PYTHONHASHSEED")
     chk.exhaustive = True
+
+
+def el_exact_integer_class(chk, R, count):
+    """event-loop histories whose timestamps are whole numbers given as Python ints far beyond 2^53 (integer nanoseconds since
+    1970, say): exact numbers that are not doubles, so there is no model run -- the oracle is the definition itself: every pop
+    returns the pending event that is smallest by (timestamp, order of scheduling), compared exactly, and the clock reads
+    that timestamp.  A request is expected to be refused exactly when its timestamp is below the clock."""
+    from gradysim.simulator.event import EventLoop, EventLoopException
+    for _ in range(count):
+        base = R.choice([1_700_000_000_000_000_000, 2 ** 53, 2 ** 60 + 1, 10 ** 17 + 7, 2 ** 64])
+        loop, pending, hist, bad = EventLoop(), [], [], []
+        clock, n = 0, 0
+        for _ in range(R.randint(4, 40)):
+            if R.random() < 0.6 or not pending:
+                ts = base + R.choice([0, 1, 2, 3, 1, 0, 2, R.randint(0, 300)])
+                hist.append(("schedule", ts))
+                try:
+                    loop.schedule_event(ts, (lambda: None), "e%d" % n)
+                    ok = True
+                except EventLoopException:
+                    ok = False
+                if ok != (ts >= clock):
+                    bad.append("C01: request %d for exact time %d with the clock at %d was %s" % (n, ts, clock, "accepted" if ok else "refused"))
+                if ok:
+                    pending.append((ts, n))
+                n += 1
+            else:
+                hist.append(("pop",))
+                e = loop.pop_event()
+                want = min(pending)
+                pending.remove(want)
+                got = (e.timestamp, int(e.context[1:]))
+                if got != want:
+                    bad.append("C01: pop returned the event scheduled %s for time %d, the earliest pending one is the one scheduled %s for time %d"
+                               % (("#%d" % got[1]), got[0], ("#%d" % want[1]), want[0]))
+                    if (got[0], got[1]) in pending:
+                        pending.remove(got)
+                        pending.append(want)
+                if e.timestamp < clock:
+                    bad.append("C01: the clock went back from %d to %d" % (clock, e.timestamp))
+                clock = e.timestamp
+                if loop.current_time != e.timestamp:
+                    bad.append("C01: after popping the event of time %d the clock reads %r" % (e.timestamp, loop.current_time))
+        chk.record("el-exact-integer-timestamps", {"base": str(base), "ops": len(hist)}, True)
+        chk.validated += 1
+        if bad:
+            chk.violation("el-exact-integer-timestamps", {"ops": [list(map(str, h)) for h in hist]}, bad[:3])
+
+
+def el_million_class(chk):
+    """one step of the loop in which 2^20 + 3 events are requested for one and the same instant, popped afterwards: first in,
+    first out (no model run: the oracle is the order of the requests)"""
+    from gradysim.simulator.event import EventLoop
+    loop = EventLoop()
+    cb = (lambda: None)
+    loop.schedule_event(1.0, cb, "first")
+    loop.pop_event()
+    n = 2 ** 20 + 3
+    for i in range(n):
+        loop.schedule_event(5.0, cb, str(i))
+    loop.schedule_event(5.0, cb, "last")
+    wrong = None
+    for i in range(n):
+        e = loop.pop_event()
+        if e.context != str(i):
+            wrong = (i, e.context)
+            break
+    chk.record("el-million-requests-in-one-step", {"requests": n}, True)
+    chk.validated += 1
+    if wrong is not None:
+        chk.violation("el-million-requests-in-one-step", {"requests": n, "instant": 5.0},
+                      ["C03: %d events requested for one instant within one step of the loop: pop #%d returned the event requested #%s "
+                       "(first in, first out expected)" % (n, wrong[0], wrong[1])])
 
 
 def check_C02(chk, R, S):
@@ -591,6 +671,7 @@ def check_C02(chk, R, S):
     run_el_class(chk, "el-chronological", el_chrono(R, max(200, S["el_rand"] // 4)))
     run_el_class(chk, "el-around-source-constants", el_mined(R, max(300, S["el_rand"] // 4)))
     run_el_class(chk, "el-events-at-infinity", el_infinite(R, 200))
+    paced_interrupt_class(chk, R, which=(2, 3))
     chk.exhaustive = True
 
 
@@ -605,6 +686,7 @@ def check_C03(chk, R, S):
     run_sim_class(chk, "sim-bursts", [gen_burst(R) for _ in range(S["sims"])], [M.mon_C03])
     run_sim_class(chk, "sim-timer-rearm", [gen_rearm(R) for _ in range(S["sims"])], [M.mon_C03])
     run_sim_class(chk, "sim-decimal-ties", [gen_decimal_ties(R) for _ in range(max(60, S["sims"] // 5))], [M.mon_C03])
+    el_million_class(chk)
     run_sim_class(chk, "sim-mass-cancel", [gen_mass_cancel(R, n) for n in sorted(set([1100] + [m for m in mined_burst_sizes() if m <= 12000]))[:6]
                                            for _ in range(2)], [M.mon_C03], batch=4)
     run_el_class(chk, "el-chronological", el_chrono(R, max(200, S["el_rand"] // 4)))
@@ -888,7 +970,7 @@ class _Interrupt(BaseException):
     pass
 
 
-def paced_interrupt_class(chk, R):
+def paced_interrupt_class(chk, R, which=(0, 1, 2, 3)):
     """a blocking run paced against the wall clock is interrupted (an alarm whose handler raises, as Ctrl-C does) while it is
     WAITING for its next event, and resumed by calling start_simulation() again: every event within the bounds is still
     executed, exactly once.  The alarm only raises when the interpreter is found sleeping inside the simulator (not inside a
@@ -899,23 +981,26 @@ def paced_interrupt_class(chk, R):
     import scripted as SC
     from gradysim.simulator.simulation import SimulationBuilder, SimulationConfiguration
     from gradysim.simulator.handler.timer import TimerHandler
-    for j in range(2):
-        times = [[0.2, 0.5, 0.8], [0.25, 0.6, 0.9, 0.9]][j]
-        speed = [2.0, 2.5][j]
+    for j in which:
+        times = [[0.2, 0.5, 0.8], [0.25, 0.6, 0.9, 0.9]][j % 2]
+        speed = [2.0, 2.5][j % 2]
+        # j >= 2: the alarm's handler does not raise but makes a request through the node's provider (a timer due BEFORE the
+        # event being waited for) and returns: the wait goes on, and the new timer is the next event to be executed
+        request = j >= 2
         script = [[{"trig": ("init",), "nth": None, "acts": [("settimer", i, "abs", t) for i, t in enumerate(times)]}]]
         sc = {"handlers": ["T"], "nodes": [{"pos": (0.0, 0.0, 0.0), "ty": 0}], "med": (60.0, 0.0, 0.0), "mob": (0.5, 1.0, (0.0, 0.0, 0.0)),
               "asserts": [], "seed": 1, "dur": 1.0, "maxit": None, "drv": ("run",), "script": script}
-        ref = corr.corr_sims([copy.deepcopy(sc)])[0]
-        want = [l for l in ref["impl"] if l.startswith("cb ")]
-        chk.validated += 1
-        if ref["diff"] is not None:
-            chk.corr_break("paced-run-interrupted-while-waiting", ref["sc"], ref["diff"], extra={"impl": ref["impl"][:40], "model": ref["model"][:40]})
         state = {}
 
         def onalarm(signum, frame):
             line = linecache.getline(frame.f_code.co_filename, frame.f_lineno)
             if frame.f_code.co_filename.endswith(os.path.join("simulator", "simulation.py")) and "sleep" in line:
                 state["hit"] = True
+                if request:
+                    proto = SC.CTX.sim.get_node(0).protocol_encapsulator.protocol
+                    state["t_new"] = proto.provider.current_time() + 0.07      # (before the event being waited for: they are 0.3 apart)
+                    proto.external([("settimer", 7, state["t_new"])])
+                    return
                 raise _Interrupt()
             state["miss"] = (frame.f_code.co_filename, frame.f_lineno)
         tr = []
@@ -944,21 +1029,33 @@ def paced_interrupt_class(chk, R):
             signal.setitimer(signal.ITIMER_REAL, 0)
             signal.signal(signal.SIGALRM, old)
             SC.CTX.sim = None
-        got = [l for l in tr if l.startswith("cb ")]
-        chk.record("paced-run-interrupted-while-waiting", {"timers": times, "speed": speed, "interrupted": bool(state.get("hit")),
+        got = [l for l in tr if l.startswith("cb ") and not l.endswith(" ext")]
+        chk.record("paced-run-interrupted-while-waiting", {"timers": times, "speed": speed, "request": request, "interrupted": bool(state.get("hit")),
                                                            "inconclusive": state.get("miss") is not None and not state.get("hit")}, True)
         chk.validated += 1
         if not state.get("hit"):
             continue
+        # what is expected: the model's (and the implementation's) run of the scenario, with the timer that was requested during
+        # the wait set at the start instead (it is due at the same time either way)
+        rsc = copy.deepcopy(sc)
+        if request:
+            rsc["script"][0][0]["acts"].append(("settimer", 7, "abs", state["t_new"]))
+        ref = corr.corr_sims([rsc])[0]
+        want = [l for l in ref["impl"] if l.startswith("cb ")]
+        chk.validated += 1
+        if ref["diff"] is not None:
+            chk.corr_break("paced-run-interrupted-while-waiting", ref["sc"], ref["diff"], extra={"impl": ref["impl"][:40], "model": ref["model"][:40]})
         if err is not None:
             chk.violation("paced-run-interrupted-while-waiting", {"scenario": sc, "speed": speed},
                           ["C04: a paced run interrupted while waiting for its next event and resumed with start_simulation() raised %s: %s"
                            % (type(err).__name__, str(err)[:100])])
         elif got != want:
             d = corr.first_diff(want, got)
-            chk.violation("paced-run-interrupted-while-waiting", {"scenario": sc, "speed": speed},
-                          ["C04: a paced run interrupted while WAITING for its next event (no callback running) and resumed with "
-                           "start_simulation() does not execute the events within its bounds: line %d: %r (uninterrupted) vs %r" % d])
+            chk.violation("paced-run-interrupted-while-waiting", {"scenario": sc, "speed": speed, "request": request},
+                          ["%s: a paced run %s while WAITING for its next event (no callback running) does not execute the events within "
+                           "its bounds, each once: line %d: %r (expected) vs %r"
+                           % ((chk.prop, "during which a timer due before that event was requested through the provider" if request else
+                               "interrupted and resumed with start_simulation()") + d)])
 
 
 def check_C05(chk, R, S):
@@ -1836,6 +1933,37 @@ def gen_pair_C13_parked(R):
     return with_, without, x, "silent-parked"
 
 
+def gen_pair_C13_parked_crowd(R):
+    """nine and more nodes, most of them under way; a handful stay where they are (among them nodes with two-digit
+    identifiers and the silent node) and report every update to a common receiver over a zero-delay medium; then the
+    silent node sets off as well"""
+    nn = R.randint(9, 14)
+    npark = R.randint(3, 6)
+    high = [i for i in range(8, nn)]
+    parked = set(R.sample(high, min(len(high), R.randint(1, 3))))
+    while len(parked) < npark:
+        parked.add(R.randrange(1, nn))
+    parked = sorted(parked)
+    x = R.choice(parked)
+    k0 = R.randint(2, 4)
+    script = []
+    for me in range(nn):
+        if me in parked:
+            rules = [{"trig": ("telem",), "nth": k, "acts": [("send", 100 + me, 0)]} for k in (k0, k0 + 1, k0 + 3)]
+        else:
+            rules = [{"trig": ("init",), "nth": None, "acts": [("goto", 40.0 + me, float(me % 5), 0.0)]}]
+        script.append(rules)
+    base = {"handlers": R.sample(["T", "M", "C"], 3), "nodes": [{"pos": (float(i % 4), float(i // 4), 0.0), "ty": 0} for i in range(nn)],
+            "med": (1000.0, 0.0, 0.0), "mob": (0.25, 2.0, (0.0, 0.0, 0.0)), "asserts": [], "seed": 1,
+            "dur": 2.0, "maxit": None, "drv": ("run",), "script": script, "trace_limit": 20000}
+    with_ = copy.deepcopy(base)
+    with_["script"][x] = [{"trig": ("init",), "nth": None, "acts": [("settimer", 0, "abs", 0.3)]},
+                          {"trig": ("timer", 0), "nth": None, "acts": [("goto", 5.0, 50.0, 0.0)]}]
+    without = copy.deepcopy(base)
+    without["script"][x] = []
+    return with_, without, x, "silent-sets-off-among-parked"
+
+
 def gen_pair_C13_refused(R):
     """the silent node makes a request that is REFUSED (a timer in the past, which it is told about by the documented
     exception), the others then set timers of their own, and the silent node cancels the name of its refused request"""
@@ -1871,6 +1999,7 @@ def check_C13(chk, R, S):
             [gen_pair_C13_crossing(R) for _ in range(max(20, S["sims"] // 5))] + \
             [gen_pair_C13_parked(R) for _ in range(max(20, S["sims"] // 5))] + \
             [gen_pair_C13_refused(R) for _ in range(max(20, S["sims"] // 5))] + \
+            [gen_pair_C13_parked_crowd(R) for _ in range(max(20, S["sims"] // 5))] + \
             [gen_pair_C13_burst(R, n) for n in mined_burst_sizes() if n <= 12000]
     ra = corr.corr_sims([p[0] for p in pairs])
     rb = corr.corr_sims([p[1] for p in pairs])
@@ -2149,6 +2278,8 @@ def gen_disp_case(R, maxops=10, nested=False):
     case = {"ninst": ninst, "beh": beh, "ops": ops}
     if R.random() < 0.4:
         case["bound"] = True               # handlers are bound methods, looked up anew for every (un)registration
+    if (len(ops) + 2 * nh) % 2 == 0:
+        case["odd_results"] = True         # handlers that return values of other types where "anything but INTERRUPT" is meant
     if not case.get("bound") and (len(ops) + nh) % 3 == 0:
         case["partials"] = True            # handlers are functools.partial objects with equal bound arguments
     if R.random() < 0.35:
